@@ -130,6 +130,9 @@ Definition c17_eng (prev : obs) (o : op) (cur : obs) : bool :=
       if mode_is prev RW then true else negb (is_ok (ores cur)) && unchanged prev cur
   | OSetRev _ =>
       if mode_is prev RW then true else negb (is_ok (ores cur)) && unchanged prev cur
+  | OOpen =>
+      (* a replica that is open is not opened (attached) a second time *)
+      if is_open prev then negb (is_ok (ores cur)) && unchanged prev cur else true
   | OGetRevFail => negb (is_ok (ores cur)) && unchanged prev cur
   | OOpenFail =>
       (* an open that fails leaves the replica as it was: closed stays closed, nothing is served *)
